@@ -214,6 +214,27 @@ class C10(fw.Prop):
             for c in (range(1, total) if deep else rng.sample(range(1, total), min(total - 1, 12))):
                 yield mk(d_of(frames, payloads, share, [c], "embedded-frame"))
             yield mk(d_of(frames, payloads, share, list(range(1, total)), "embedded-frame"))
+        # a flag inside the payload that is preceded by the check sequence of everything before it: the piece up to that flag
+        # is a frame in every respect but its length field
+        from harness.props.c18 import crc_x25 as _crc
+        for rep in range(40 if deep else 10):
+            p1 = bytes(rng.getrandbits(8) for _ in range(rng.choice([0, 1, 6, 20, 130])))
+            p2 = bytes(rng.getrandbits(8) for _ in range(rng.choice([0, 1, 9, 40])))
+            srv = rng.choice([None, (1, 17), (300, 17)])
+            f0 = frame_bytes(0, p1 + b"\x00\x00\x7e" + p2, srv=srv)
+            start = len(f0) - 3 - (len(p1) + 3 + len(p2))
+            x = _crc(f0[1:start + len(p1)])
+            crafted = p1 + x + b"\x7e" + p2
+            payloads = [crafted, b"\x05\x06"]
+            frames = [frame_bytes(i, p, segmented=(i < 1), srv=srv) for i, p in enumerate(payloads)]
+            share = [rng.random() < 0.5]
+            total = sum(len(f) for f in frames) - sum(share)
+            inner = start + len(p1) + 3          # right after the inner flag
+            yield mk(d_of(frames, payloads, share, [], "inner-check-sequence"))
+            yield mk(d_of(frames, payloads, share, [inner], "inner-check-sequence"))
+            yield mk(d_of(frames, payloads, share, sorted({inner - 1, inner, inner + 1} & set(range(1, total))), "inner-check-sequence"))
+            if total < 400:
+                yield mk(d_of(frames, payloads, share, list(range(1, total)), "inner-check-sequence"))
         # the same streams handed over in one re-used bytearray (the caller's read buffer)
         for rep in range(20 if deep else 5):
             n = rng.randint(1, 4)
@@ -266,6 +287,15 @@ class C10(fw.Prop):
             else:
                 cuts = sorted(rng.sample(range(1, total), min(total - 1, rng.randint(1, 40))))
             yield mk(d_of(frames, payloads, share, cuts, "random-cuts"))
+        # the longest payloads made of flags (every byte a candidate end of frame), in one piece and in a few large pieces
+        for L, density in ((2030, 1.0), (1200, 1.0), (2030, 0.9), (1500, 0.7)):
+            pl = bytes(0x7E if rng.random() < density else rng.getrandbits(8) for _ in range(L))
+            payloads = [pl, b"\x01\x7e\x02"]
+            frames = [frame_bytes(i, p, segmented=(i < 1)) for i, p in enumerate(payloads)]
+            for share in ([False], [True]):
+                total = sum(len(f) for f in frames) - sum(share)
+                for cuts in ([], [1000], [5, total - 3], sorted(rng.sample(range(1, total), 3))):
+                    yield mk(d_of(frames, payloads, share, cuts, "flags-only-payload"))
         # malformed: garbage between frames, doubled flags (model validation only)
         for _ in range(300 if deep else 40):
             n = rng.randint(1, 4)
